@@ -68,7 +68,13 @@ def build(base, sub, with_repo, with_version):
         cb.add_file(entry)
         files.append((path, lang, lengths, names))
     cb.aggregate()
-    rep = Report(cb, GithubRepository(v["owner"], v["repo"], branch=v["branch"]) if with_repo else None)
+    if with_repo == "tag":
+        # a checkout of a TAG: there is no branch (the tag itself is not part of the document)
+        rep = Report(cb, GithubRepository(v["owner"], v["repo"], branch=None, tag=v["branch"]))
+    else:
+        rep = Report(cb, GithubRepository(v["owner"], v["repo"], branch=v["branch"]) if with_repo else None)
+    if "uuid" in v:
+        rep.uuid = v["uuid"]
     rep.version = v["version"] if with_version else None
     return rep, v, files
 
@@ -137,7 +143,7 @@ def _eval_case(base, sub, with_repo, with_version, ambient=False):
     want_doc_files = [p for p, _, _, _ in files]
     if doc.get("root") != v["root"] or list(doc["codebase"]["files"].keys()) != want_doc_files:
         out.append(("document-content-wrong", {"what": "root-or-paths"}, f"root={doc.get('root')!r} files={list(doc['codebase']['files'])}"))
-    if with_repo and doc.get("repository") != {"owner": v["owner"], "name": v["repo"], "branch": v["branch"]}:
+    if with_repo and doc.get("repository") != {"owner": v["owner"], "name": v["repo"], "branch": None if with_repo == "tag" else v["branch"]}:
         out.append(("document-content-wrong", {"what": "repository"}, repr(doc.get("repository"))))
     if with_version and doc.get("version") != v["version"]:
         out.append(("document-content-wrong", {"what": "version"}, repr(doc.get("version"))))
@@ -197,6 +203,13 @@ def cases(tier):
         for nv in near_versions():
             yield base, {"version": nv}, True, True
             yield base, {"version": nv}, False, True
+    for base in BASES:
+        yield base, {}, "tag", True
+        yield base, {"branch": "v1.2.3"}, "tag", False
+        # identifiers that are UUIDs in a non-canonical spelling, and identifiers that are no UUIDs at all: the identifier is just a string
+        for u in ("6F9619FF-8B86-D011-B42D-00C04FC964FF", "{6f9619ff-8b86-d011-b42d-00c04fc964ff}", "urn:uuid:6f9619ff-8b86-d011-b42d-00c04fc964ff",
+                  "6f9619ff8b86d011b42d00c04fc964ff", "not-a-uuid", "", "0"):
+            yield base, {"uuid": u}, True, True
     pair_bases = ["two-files"] if tier == "quick" else ["two-files", "nested"]
     pair_strings = HOSTILE if tier == "quick" else STRINGS
     for base in pair_bases:
